@@ -637,8 +637,21 @@ class Interp:
             raise SymRaise(ExcVal("AttributeError", (name,)))
         if o is None:
             raise SymRaise(ExcVal("AttributeError", (name,)))
-        if isinstance(o, str) and name in ("strip", "split", "startswith"):
+        if isinstance(o, str) and name in ("strip", "lstrip", "rstrip", "split", "startswith", "endswith", "lower", "upper",
+                                           "isdigit", "isdecimal"):
             return lambda it, *a: getattr(o, name)(*a)
+        if isinstance(o, StrInt):
+            # the decimal rendering of an integer: no surrounding blanks, never empty, one token
+            if name in ("strip", "lstrip", "rstrip", "lower", "upper"):
+                return lambda it, *a: o
+            if name == "split":
+                return lambda it, *a: [o]
+            if name in ("isdigit", "isdecimal"):
+                return lambda it: it.p.branch(o.val >= 0)  # "-3".isdigit() is False
+            if name == "startswith":
+                return lambda it, pre, *a: (it.p.branch(o.val < 0) if pre == "-" else
+                                           (False if (isinstance(pre, str) and pre and not (pre.lstrip("-").isdigit())) else
+                                            _unsup("StrInt.startswith(digits)")))
         raise Unsupported(f"attribute {name} of {type(o).__name__}")
 
     def e_Attribute(self, e, env, g):
